@@ -17,12 +17,13 @@ if [ $BUILD -eq 0 ]; then ctest --test-dir $S/pb -j6 --timeout 900 -E testserial
 R="$R,\"build_ok\":$([ $BUILD -eq 0 ] && echo true || echo false),\"ctest_with_change\":\"$TESTS\""
 # (3) demonstration against a clean and a patched static library (plain g++ build of the library sources, no hooks)
 libsrc() { ls $1/{dataio,iogateway,message,reflector,regex,syslog,system,util,zlib}/*.cpp | grep -v "SSL\|ZipFileUtilityFunctions"; }
-buildlib() { mkdir -p $2; ( cd $2 && for f in $(libsrc $1); do echo $f; done | xargs -P 8 -I{} sh -c 'g++ -std=c++11 -O1 -w -I'$1' -DMUSCLE_ENABLE_ZLIB_ENCODING -c {} -o $(echo {} | md5sum | cut -c1-12).o' && ar rcs lib.a *.o ); }
+DEFS=""; grep -q MUSCLE_VERIF_HOOKS "$SD/demo.cpp" 2>/dev/null && DEFS="-DMUSCLE_VERIF_HOOKS"    # a demonstration may use the library's own (guarded) hooks to park a thread in a window
+buildlib() { mkdir -p $2; ( cd $2 && for f in $(libsrc $1); do echo $f; done | xargs -P 8 -I{} sh -c 'g++ -std=c++11 -O1 -w -I'$1' -DMUSCLE_ENABLE_ZLIB_ENCODING '$DEFS' -c {} -o $(echo {} | md5sum | cut -c1-12).o' && ar rcs lib.a *.o ); }
 DEMO_CLEAN="n/a"; DEMO_PATCHED="n/a"
 if [ -f "$SD/demo.cpp" ]; then
   buildlib $S/clean $S/lc > $S/lc.log 2>&1; buildlib $S/patched $S/lp > $S/lp.log 2>&1
-  g++ -std=c++11 -O1 -w -I$S/clean -DMUSCLE_ENABLE_ZLIB_ENCODING "$SD/demo.cpp" $S/lc/lib.a -lz -lutil -lpthread -o $S/demo_clean > $S/dc.log 2>&1
-  g++ -std=c++11 -O1 -w -I$S/patched -DMUSCLE_ENABLE_ZLIB_ENCODING "$SD/demo.cpp" $S/lp/lib.a -lz -lutil -lpthread -o $S/demo_patched > $S/dp.log 2>&1
+  g++ -std=c++11 -O1 -w -I$S/clean -DMUSCLE_ENABLE_ZLIB_ENCODING $DEFS "$SD/demo.cpp" $S/lc/lib.a -lz -lutil -lpthread -o $S/demo_clean > $S/dc.log 2>&1
+  g++ -std=c++11 -O1 -w -I$S/patched -DMUSCLE_ENABLE_ZLIB_ENCODING $DEFS "$SD/demo.cpp" $S/lp/lib.a -lz -lutil -lpthread -o $S/demo_patched > $S/dp.log 2>&1
   if [ -x $S/demo_clean ]; then ( cd $S && timeout 120 ./demo_clean > $S/run_clean.txt 2>&1 ); DEMO_CLEAN=$?; else DEMO_CLEAN="build failed"; fi
   if [ -x $S/demo_patched ]; then ( cd $S && timeout 120 ./demo_patched > $S/run_patched.txt 2>&1 ); DEMO_PATCHED=$?; else DEMO_PATCHED="build failed"; fi
 elif [ -f "$SD/demo.sh" ]; then
